@@ -82,8 +82,8 @@ func stampModel(v AVia, on bool, srcIP string, srcPort int) AVia {
 }
 
 func TestC07(t *testing.T) {
-	V.Rule("lab (services started from generated YAML text, no-received absent / false / true per listen entry): requests from user agents at distinct loopback addresses over UDP (from port 5060 or 6010) and over accepted TCP connections, and requests a TCP backend sends over the connection the proxy opened to it; the sender's top Via names its own or another endpoint, an alias or a foreign host, with rport absent / valueless / pre-filled with a wrong port, received absent / spoofed, further parameters around them, more Via entries beneath, laid out in any way. Oracle at the next hop: sender's entry = as sent with received=<source IP> (exactly one) and rport=<source port> iff rport was present; every other parameter and entry textually untouched; with received-support off the entry is textually the one sent. Then the backend answers and the response must arrive at (source IP, source port) if rport was requested, (source IP, sent-by port) otherwise, at the sent-by/received address as written when support is off, on the same connection for TCP. non-trivial = spoofed received or pre-filled rport, or sent-by different from the source; distinct by (instance, ingress, sender Via)")
-	V.Require("support:on", "support:off", "ingress:udp", "ingress:tcp-accepted", "ingress:tcp-outbound-to-backend", "spoofed received", "pre-filled rport", "valueless rport", "no rport", "sent-by is another endpoint", "response returned to true source")
+	V.Rule("lab (services started from generated YAML text, no-received absent / false / true per listen entry): requests from user agents at distinct loopback addresses over UDP (from port 5060 or 6010) and over accepted TCP connections, and requests a TCP backend sends over the connection the proxy opened to it; the sender's top Via names its own or another endpoint, an alias or a foreign host, with rport absent / valueless / pre-filled with a wrong port, received absent / spoofed, further parameters around them, more Via entries beneath, laid out in any way; plus bursts of 2-40 requests sent back to back from several source sockets (each must be stamped with its own source). Oracle at the next hop: sender's entry = as sent with received=<source IP> (exactly one) and rport=<source port> iff rport was present; every other parameter and entry textually untouched; with received-support off the entry is textually the one sent. Then the backend answers and the response must arrive at (source IP, source port) if rport was requested, (source IP, sent-by port) otherwise, at the sent-by/received address as written when support is off, on the same connection for TCP. non-trivial = spoofed received or pre-filled rport, or sent-by different from the source; distinct by (instance, ingress, sender Via)")
+	V.Require("support:on", "support:off", "ingress:udp", "ingress:tcp-accepted", "ingress:tcp-outbound-to-backend", "spoofed received", "pre-filled rport", "valueless rport", "no rport", "sent-by is another endpoint", "response returned to true source", "burst: >=2 sources interleaved")
 	vars := []stdVariant{
 		{NoReceived: [3]string{"", "false", "true"}},
 		{NoReceived: [3]string{"true", "", "false"}, Keep: "on"},
@@ -232,6 +232,86 @@ func TestC07(t *testing.T) {
 			failf(rt, "received-support %v, packet came from %s:%d, sender's Via %q: response must go to %s:%d/%s; receptions:\n%s", stamp, srcIP, srcPort, own.String(), hop.IP, hop.Port, hop.Proto, labDescribe(got))
 		}
 		V.ClassIf(stamp && got[0].ep.ip == srcIP, "response returned to true source")
+	})
+
+	// bursts: requests from several sources back to back, so that a datagram is
+	// read from the socket before the previous one has been decoded
+	rcheck(t, "bursts", V.N(60, 400), func(rt *rapid.T) {
+		s := svcs[0]
+		entry := 0 // received-support on
+		l := s.in.cfg.Listens[entry]
+		k := rapid.IntRange(2, 40).Draw(rt, "requests")
+		type sent struct {
+			id      string
+			src     *labEP
+			own     AVia
+			entries int
+		}
+		var plan []sent
+		var wires [][]byte
+		for i := 0; i < k; i++ {
+			ua := rapid.IntRange(0, 3).Draw(rt, "ua")
+			src := s.uas[ua]
+			if rapid.Bool().Draw(rt, "from6010") {
+				src = s.uas2[ua]
+			}
+			id := s.nextID("c07burst-")
+			own := AVia{Proto: "SIP", Ver: "2.0", Transport: "UDP", Host: s.ip(10 + (ua+1)%4), Port: 5060, Params: []AParam{{K: "branch", V: "z9hG4bK" + id, HasV: true}, {K: "rport"}}}
+			body := gFromAlphabet(rt, "body", "abcdef", 0, 300)
+			wire := fmt.Sprintf("MESSAGE sip:svc.test SIP/2.0\r\nVia: %s\r\nFrom: <sip:a@b>;tag=1\r\nTo: <sip:svc@nomatch.example>\r\nCall-ID: %s\r\nCSeq: 1 MESSAGE\r\nContent-Length: %d\r\n\r\n%s", own.String(), id, len(body), body)
+			plan = append(plan, sent{id: id, src: src, own: own})
+			wires = append(wires, []byte(wire))
+			s.model.learnRequest(s.model.transport(entry, "udp"), src.ip, &AMsg{IsReq: true, Hdrs: []AHdr{{Kind: hVia, Vias: []AVia{own}}}})
+		}
+		desc := []string{}
+		for _, p := range plan {
+			desc = append(desc, fmt.Sprintf("%s from %s:%d", p.id, p.src.ip, p.src.port))
+		}
+		V.Journal(t.Name()+"/bursts", desc)
+		for i, p := range plan {
+			if err := p.src.sendUDP(l.Addr, l.UDPPort, wires[i]); err != nil {
+				V.HarnessError(rt, "send: %v", err)
+			}
+		}
+		// one barrier per source socket used (each source is FIFO)
+		var got []labRx
+		seenSrc := map[*labEP]bool{}
+		for _, p := range plan {
+			if seenSrc[p.src] {
+				continue
+			}
+			seenSrc[p.src] = true
+			src := p.src
+			rs, err := s.in.settle(func(b []byte) error { return src.sendUDP(l.Addr, l.UDPPort, b) }, 0)
+			if _, lost := err.(labLost); lost {
+				failf(rt, "%v", err)
+			} else if err != nil {
+				V.HarnessError(rt, "%v", err)
+			}
+			got = append(got, labMessages(rs)...)
+		}
+		V.Class("burst from several sources")
+		V.ClassIf(len(seenSrc) >= 2, "burst: >=2 sources interleaved")
+		V.NonTrivial(strings.Join(desc, "|"))
+		V.SampleEvery(20, func() any { return desc })
+		byID := map[string][]labRx{}
+		for _, r := range got {
+			id, _ := r.msg.First(hCallID)
+			byID[id] = append(byID[id], r)
+		}
+		for _, p := range plan {
+			rs := byID[p.id]
+			if len(rs) != 1 {
+				failf(rt, "request %s of a burst of %d was relayed %d times (want once, to a backend)\nburst: %v", p.id, k, len(rs), desc)
+			}
+			outE := rs[0].msg.Entries(hVia)
+			if len(outE) != 2 {
+				failf(rt, "request %s arrived with Via entries %q", p.id, outE)
+			}
+			if f := checkStamped(p.own, outE[1], true, p.src.ip, p.src.port); f != "" {
+				failf(rt, "request %s sent from %s:%d inside a burst of %d requests from %d sources: %s\nburst: %v", p.id, p.src.ip, p.src.port, k, len(seenSrc), f, desc)
+			}
+		}
 	})
 
 	rcheck(t, "backend-connection", V.N(150, 800), func(rt *rapid.T) {
